@@ -377,12 +377,15 @@ func TestVF_C15(t *testing.T) {
 		}})
 	}
 	// descriptor use must not grow with the entry count
-	for i, entries := range []int{50, 200, 800, -50, -200, -800} {
+	for i, entries := range []int{50, 200, 800, -50, -200, -800, 300} {
 		i, entries := i, entries
 		shape := "few-dirs"
 		if entries < 0 {
 			entries = -entries
 			shape = "dir-per-file" // every file is followed by a directory entry in scan order
+		}
+		if entries == 300 {
+			shape = "empty-files" // zero-length entries never reach the data branch of the writer
 		}
 		cases = append(cases, vfCase{ID: fmt.Sprintf("fd-%s-%d", shape, entries), Run: func(c *vfCtx) {
 			r := c.R
@@ -390,10 +393,14 @@ func TestVF_C15(t *testing.T) {
 			specs := []vfFileSpec{{Rel: "many", Dir: true}}
 			for k := 0; k < entries; k++ {
 				if shape == "dir-per-file" {
-					specs = append(specs, vfFileSpec{Rel: fmt.Sprintf("many/d%04d/f", k), Size: 1 + k%5, Content: "rand"})
+					specs = append(specs, vfFileSpec{Rel: fmt.Sprintf("many/d%04d/f", k), Size: k % 5, Content: "rand"})
 					continue
 				}
-				specs = append(specs, vfFileSpec{Rel: fmt.Sprintf("many/d%d/f%04d", k%7, k), Size: 1 + k%5, Content: "rand"})
+				if shape == "empty-files" {
+					specs = append(specs, vfFileSpec{Rel: fmt.Sprintf("many/d%d/f%04d", k%3, k), Size: 0, Content: "rand"})
+					continue
+				}
+				specs = append(specs, vfFileSpec{Rel: fmt.Sprintf("many/d%d/f%04d", k%7, k), Size: k % 5, Content: "rand"})
 			}
 			if err := vfWriteTree(src, specs, r); err != nil {
 				c.Inconc("%v", err)
